@@ -5,7 +5,7 @@ From Helm Require Import Values.Tree Common.Assoc
   Misc.Panics Misc.PanicsStorage Misc.PanicsStorageProofs
   Misc.PanicsDeps Misc.PanicsDepsProofs Misc.PanicsIndex Misc.PanicsIndexProofs
   Misc.PanicsSort Misc.PanicsSortProofs Misc.PanicsSchema Misc.PanicsSchemaProofs
-  Values.Strvals Misc.PanicsStrvals Misc.PanicsStrvalsProofs Gen.C20Tables
+  Misc.PanicsStrvalsLex Misc.PanicsStrvals Misc.PanicsStrvalsProofs Gen.C20Tables
   Misc.PanicsSchemaCoalesce.
 From Helm Require Values.Coalesce.
 Import ListNotations.
@@ -308,8 +308,9 @@ Print Assumptions C20_schema_walk_behind_coalesce_refuted.
 
 (* the limits the statements below are about, as they stand in pkg/strvals/parser.go *)
 Theorem C20_strvals_limits_table :
-  strvals_max_index = 65536%Z /\ strvals_max_nested_name_level = 30%Z.
-Proof. exact (conj eq_refl eq_refl). Qed.
+  strvals_max_index = 65536%Z /\ strvals_max_nested_name_level = 30%Z /\
+  engine_recursion_max_nums = 1000%Z.       (* bound of include / tpl nesting, used by the exploration *)
+Proof. exact (conj eq_refl (conj eq_refl eq_refl)). Qed.
 Print Assumptions C20_strvals_limits_table.
 
 (* for every parser mode, every destination table, every input and every value of the
